@@ -183,6 +183,7 @@ pub fn run_path(cfg: &SmCfg, events: &[Ev]) -> PathResult {
                     Ev::WriteErrorNext => d.h.io().expect("io").set_write_mode(WriteMode::Error(std::io::ErrorKind::BrokenPipe)),
                     Ev::AdvanceToNext => crate::sim::advance(next_timer.unwrap() - before_now),
                     Ev::Advance1 => crate::sim::advance(1),
+                    Ev::AdvanceToJustBefore => crate::sim::advance(next_timer.unwrap() - 1 - before_now),
                     Ev::ReplyRest => unreachable!(),
                 }
                 d.model.apply(ev)
@@ -343,6 +344,7 @@ pub fn epilogue(model: &ClientModel) -> Vec<Ev> {
     v
 }
 
+#[derive(Clone, Copy)]
 pub struct Explore<'a> {
     pub prop: &'a str,
     pub cfg: &'a SmCfg,
@@ -354,6 +356,23 @@ pub struct Explore<'a> {
     pub filter: &'a (dyn Fn(&Ev, &ClientModel) -> bool + Sync),
     /// 0 = default environment answer, 1 = deviation
     pub cost: &'a (dyn Fn(&Ev) -> usize + Sync),
+    /// additional events for this property's alphabet
+    pub extra: &'a (dyn Fn(&ClientModel) -> Vec<Ev> + Sync),
+}
+
+pub fn no_extra(_: &ClientModel) -> Vec<Ev> {
+    vec![]
+}
+
+fn next_events(x: &Explore, m: &ClientModel) -> Vec<Ev> {
+    let mut v = m.enabled_events(x.max_requests);
+    v.retain(|e| (x.filter)(e, m));
+    for e in (x.extra)(m) {
+        if !v.contains(&e) {
+            v.push(e);
+        }
+    }
+    v
 }
 
 fn judge(x: &Explore, path: &[Ev], res: &PathResult, st: &mut Stats, tag: &str) -> bool {
@@ -433,10 +452,7 @@ fn rec(x: &Explore, path: &mut Vec<Ev>, dev: usize, st: &mut Stats) {
     if leaf {
         return;
     }
-    for ev in res.model.enabled_events(x.max_requests) {
-        if !(x.filter)(&ev, &res.model) {
-            continue;
-        }
+    for ev in next_events(x, &res.model) {
         let c = (x.cost)(&ev);
         if dev + c > x.max_dev {
             continue;
@@ -472,46 +488,66 @@ pub fn ev_name(e: &Ev) -> &'static str {
         Ev::WriteErrorNext => "ev:write-error-next",
         Ev::AdvanceToNext => "ev:advance-to-next",
         Ev::Advance1 => "ev:advance-1ms",
+        Ev::AdvanceToJustBefore => "ev:advance-to-just-before",
     }
 }
 
-/// explore from a set of prefixes in parallel (first-level branching over the prefixes)
+/// explore from a set of prefixes in parallel: the tree is expanded breadth-first for a few levels
+/// to obtain enough jobs, inner nodes of the expansion are evaluated once, leaves are explored
+/// depth-first by the workers
 pub fn explore(x: &Explore, prefixes: &[Vec<Ev>]) -> Stats {
-    // expand prefixes by one level to get enough parallel jobs
-    let mut jobs: Vec<(Vec<Ev>, usize)> = vec![];
-    for pre in prefixes {
-        let res = run_path(x.cfg, pre);
-        if !res.problems.is_empty() {
-            jobs.push((pre.clone(), 0));
-            continue;
-        }
-        let dev0: usize = pre.iter().map(|e| (x.cost)(e)).sum();
-        jobs.push((pre.clone(), usize::MAX));
-        for ev in res.model.enabled_events(x.max_requests) {
-            if !(x.filter)(&ev, &res.model) {
+    let mut inner: Vec<Vec<Ev>> = vec![];
+    let mut frontier: Vec<(Vec<Ev>, usize)> = prefixes
+        .iter()
+        .map(|p| (p.clone(), p.iter().map(|e| (x.cost)(e)).sum()))
+        .collect();
+    let mut level = 0;
+    while frontier.len() < 400 && level < 3 && !frontier.is_empty() {
+        let mut next = vec![];
+        for (pre, dev) in frontier {
+            if pre.len() >= x.depth {
+                next.push((pre, dev));
                 continue;
             }
-            let c = (x.cost)(&ev);
-            if dev0 + c > x.max_dev {
+            let res = run_path(x.cfg, &pre);
+            if !res.problems.is_empty() {
+                next.push((pre, dev));
                 continue;
             }
-            let mut p = pre.clone();
-            p.push(ev);
-            jobs.push((p, dev0 + c));
+            let mut any = false;
+            for ev in next_events(x, &res.model) {
+                let c = (x.cost)(&ev);
+                if dev + c > x.max_dev {
+                    continue;
+                }
+                let mut p = pre.clone();
+                p.push(ev);
+                next.push((p, dev + c));
+                any = true;
+            }
+            if any {
+                inner.push(pre);
+            } else {
+                next.push((pre, dev));
+            }
         }
+        frontier = next;
+        level += 1;
     }
-    parallel(jobs.len(), |i, st| {
-        let (path, dev) = &jobs[i];
+    let mut total = parallel(frontier.len(), |i, st| {
+        let (path, dev) = &frontier[i];
         let mut path = path.clone();
-        if *dev == usize::MAX {
-            // the prefix node itself: evaluate without extending
-            let res = run_path(x.cfg, &path);
-            st.evaluations += 1;
-            judge(x, &path, &res, st, "");
-        } else {
-            rec(x, &mut path, *dev, st);
-        }
-    })
+        rec(x, &mut path, *dev, st);
+    });
+    // inner nodes of the expansion: evaluated (with epilogue) but not extended again
+    let st2 = parallel(inner.len(), |i, st| {
+        let y = Explore { depth: inner[i].len(), ..*x };
+        let mut path = inner[i].clone();
+        let dev = path.iter().map(|e| (x.cost)(e)).sum();
+        rec(&y, &mut path, dev, st);
+    });
+    total.merge(st2);
+    total
 }
 
 pub fn replay(v: &serde_json::Value) -> Vec<(String, String)> {
@@ -560,11 +596,11 @@ pub fn check_c10(tier: &str) -> i32 {
         _ => true,
     };
     for cfg in &cfgs {
-        let x = Explore { prop: "C10", cfg, depth: depth + 2, max_dev: k, max_requests: 3, aspects: "C", filter: &filter, cost: &default_cost };
+        let x = Explore { prop: "C10", cfg, depth: depth + 2, max_dev: k, max_requests: 3, aspects: "C", filter: &filter, cost: &default_cost, extra: &no_extra };
         // from the connected state and from a cold start
         let st = explore(&x, &[connected_prefix()]);
         rep.phase(&format!("from connected, cap={} N={:?}", cfg.cap, cfg.max_timeouts), st, json!({"cfg": cfg}));
-        let x = Explore { prop: "C10", cfg, depth: depth.min(5), max_dev: k, max_requests: 2, aspects: "C", filter: &filter, cost: &default_cost };
+        let x = Explore { prop: "C10", cfg, depth: depth.min(5), max_dev: k, max_requests: 2, aspects: "C", filter: &filter, cost: &default_cost, extra: &no_extra };
         let st = explore(&x, &[vec![]]);
         rep.phase(&format!("from cold start, cap={} N={:?}", cfg.cap, cfg.max_timeouts), st, json!({"cfg": cfg}));
     }
@@ -578,3 +614,401 @@ pub fn check_c10(tier: &str) -> i32 {
 
 #[allow(dead_code)]
 pub fn unused(_: Values) {}
+
+// ---------------------------------------------------------------------------------------------
+// C11: transaction ids
+// ---------------------------------------------------------------------------------------------
+
+fn c11_extra(m: &ClientModel) -> Vec<Ev> {
+    let mut v = vec![];
+    if matches!(m.phase, Phase::InFlight { .. } | Phase::Idle) && m.rxbuf.is_empty() {
+        // stale by 1, 2, 32768; "future" by 1 and 2 (= stale by 65535 / 65534)
+        for back in [1u16, 2, 0x8000, 0xFFFF, 0xFFFE] {
+            // while idle a frame carrying the *next* id must not be buffered before its request
+            // leaves (select! tie, DESIGN.md section 10): it is dropped at once because the driver
+            // settles after every event, so it is a legitimate event here as well
+            v.push(Ev::ReplyStale(back));
+        }
+    }
+    v
+}
+
+pub fn check_c11(tier: &str) -> i32 {
+    let mut rep = Report::new(
+        "C11",
+        tier,
+        "model_checking",
+        "all event sequences up to depth D over {submit (1-3 queued requests), matching reply, frame with id cur-1, cur-2, cur+1, cur+2, cur-32768 (while outstanding and while idle; idle cur-1 is a duplicate of the last accepted reply), partial reply + rest, advance to deadline, read error + reconnect} on the production TcpChannelTask; the wire log (request order, one outstanding request, consecutive ids per dequeued request) and the results (built only from the frame whose id matches) are compared with the reference client model; plus one path of 65,600 request/reply rounds with stale replies injected around the id wrap",
+    );
+    let thorough = rep.thorough();
+    let depth = if thorough { 8 } else { 6 };
+    rep.bounds = json!({"depth_after_prefix": depth, "max_requests": 3, "wrap_rounds": 65600});
+    let cfg = SmCfg { cap: 16, max_timeouts: None, retry_min: 3, retry_max: 12, handles: 1, decode: (0, 0, 0) };
+    let filter = |e: &Ev, _m: &ClientModel| {
+        matches!(
+            e,
+            Ev::Submit { style: MStyle::Future, .. } | Ev::ReplyOk | Ev::ReplyStale(_) | Ev::ReplyPartial(_) | Ev::ReplyRest | Ev::AdvanceToNext | Ev::ReadError | Ev::ConnectOk | Ev::ReplyException
+        )
+    };
+    let cost = |e: &Ev| match e {
+        Ev::ReadError | Ev::ReplyPartial(_) | Ev::ReplyException => 1,
+        _ => 0,
+    };
+    let x = Explore { prop: "C11", cfg: &cfg, depth: depth + 2, max_dev: if thorough { 3 } else { 2 }, max_requests: 3, aspects: "WC", filter: &filter, cost: &cost, extra: &c11_extra };
+    let st = explore(&x, &[connected_prefix()]);
+    rep.phase("sequences", st, json!({"cfg": cfg}));
+    // the long path across the id wrap
+    let mut st = Stats::default();
+    let mut path = connected_prefix();
+    let rounds = 65_600usize;
+    for r in 0..rounds {
+        path.push(Ev::Submit { handle: 0, style: MStyle::Future, timeout_ms: 5 });
+        let near_wrap = r >= 65_530 && r <= 65_540;
+        if r % 4096 == 7 || near_wrap {
+            path.push(Ev::ReplyStale(1));
+            path.push(Ev::ReplyStale(0xFFFF));
+        }
+        path.push(Ev::ReplyOk);
+        if near_wrap {
+            path.push(Ev::ReplyStale(1));
+        }
+    }
+    let describe = || ("c11-wrap".to_string(), "65,600 rounds".to_string(), json!({"kind": "client-sm-wrap"}));
+    let res = crate::sim::watchdog::guard(&describe, || run_path_big(&cfg, &path));
+    st.evaluations += 1;
+    st.traces += 1;
+    st.transitions += path.len() as u64;
+    st.class("wrap-path");
+    st.state(&res.model.next_tx);
+    if res.model.next_tx != (rounds % 65536) as u16 {
+        st.violation(Violation { signature: "MACHINERY:wrap-path".into(), summary: format!("model next_tx {}", res.model.next_tx), replay: json!({}) });
+    }
+    for p in &res.problems {
+        st.violation(Violation {
+            signature: format!("wrap:{}", p.sig),
+            summary: format!("wrap path step {} ({:?}): {}", p.step, path.get(p.step), p.desc),
+            replay: json!({"kind": "client-sm-wrap", "property": "C11"}),
+        });
+    }
+    st.sample(json!({"wrap_path_events": path.len(), "final_next_tx": res.model.next_tx}));
+    rep.phase("id wrap path", st, json!({"rounds": rounds}));
+    for c in ["ev:reply-stale", "ev:reply-ok", "ev:submit-future", "ev:advance-to-next", "ev:read-error", "ev:connect-ok", "wrap-path"] {
+        rep.require_class(c);
+    }
+    rep.assumptions.push("a frame carrying a not-yet-transmitted id is never buffered before its request leaves (tokio select! tie)".into());
+    rep.finish()
+}
+
+/// run a very long path; identical to run_path (kept separate so the watchdog limit can differ)
+fn run_path_big(cfg: &SmCfg, events: &[Ev]) -> PathResult {
+    run_path(cfg, events)
+}
+
+pub fn replay_wrap() -> Vec<(String, String)> {
+    vec![("info".into(), "re-run `./check C11 quick`: the wrap path is a fixed scenario".into())]
+}
+
+// ---------------------------------------------------------------------------------------------
+// C12: timeouts
+// ---------------------------------------------------------------------------------------------
+
+fn c12_extra(m: &ClientModel) -> Vec<Ev> {
+    let mut v = vec![];
+    if m.handles[0] && m.next_req < 6 {
+        for t in [1u64, 7, 1000] {
+            v.push(Ev::Submit { handle: 0, style: MStyle::Future, timeout_ms: t });
+        }
+    }
+    v
+}
+
+pub fn check_c12(tier: &str) -> i32 {
+    let mut rep = Report::new(
+        "C12",
+        tier,
+        "model_checking",
+        "all event sequences up to depth D over {submit with timeout 1, 7 or 1000 ms, reply ok / exception / bad / stale, partial reply, rest of the reply, advance to the deadline, advance to one ms before it, advance 1 ms, connect ok} with max_response_timeouts in {None, 1, 2, 3} on the production TcpChannelTask under the paused clock; completion instants (virtual ms), the connection drop after exactly N consecutive timeouts and the absence of a drop otherwise are compared with the reference client model",
+    );
+    let thorough = rep.thorough();
+    let depth = if thorough { 9 } else { 6 };
+    rep.bounds = json!({"depth_after_prefix": depth, "timeouts_ms": [1, 7, 1000], "N": ["none", 1, 2, 3], "max_requests": 6});
+    // machinery self-test: the paused clock fires a timer exactly at its deadline, not before
+    {
+        let cfg = SmCfg { cap: 16, max_timeouts: None, retry_min: 3, retry_max: 12, handles: 1, decode: (0, 0, 0) };
+        let p = vec![Ev::Enable(0), Ev::ConnectOk, Ev::Submit { handle: 0, style: MStyle::Future, timeout_ms: 1000 }, Ev::AdvanceToJustBefore, Ev::Advance1];
+        let r = run_path(&cfg, &p);
+        if !r.problems.is_empty() {
+            // either the clock or the code under test is off: reported through the normal path below
+            eprintln!("note: basic timeout path already fails: {:?}", r.problems[0].desc);
+        }
+    }
+    let filter = |e: &Ev, _m: &ClientModel| {
+        matches!(
+            e,
+            Ev::ReplyOk | Ev::ReplyException | Ev::ReplyBad | Ev::ReplyStale(1) | Ev::ReplyPartial(_) | Ev::ReplyRest | Ev::AdvanceToNext | Ev::AdvanceToJustBefore | Ev::Advance1 | Ev::ConnectOk
+        )
+    };
+    let cost = |e: &Ev| match e {
+        Ev::ReplyBad | Ev::ReplyStale(_) | Ev::ReplyPartial(_) | Ev::Advance1 | Ev::ReplyException => 1,
+        _ => 0,
+    };
+    for n in [None, Some(1), Some(2), Some(3)] {
+        let cfg = SmCfg { cap: 16, max_timeouts: n, retry_min: 3, retry_max: 12, handles: 1, decode: (0, 0, 0) };
+        let x = Explore { prop: "C12", cfg: &cfg, depth: depth + 2, max_dev: if thorough { 4 } else { 3 }, max_requests: 0, aspects: "TCLW", filter: &filter, cost: &cost, extra: &c12_extra };
+        let st = explore(&x, &[connected_prefix()]);
+        rep.phase(&format!("N={n:?}"), st, json!({"cfg": cfg}));
+    }
+    for c in ["ev:advance-to-next", "ev:advance-to-just-before", "ev:advance-1ms", "ev:reply-partial", "ev:reply-rest", "ev:reply-ok", "ev:reply-exception", "ev:reply-bad", "ev:connect-ok"] {
+        rep.require_class(c);
+    }
+    rep.assumptions.push("tokio's timer wheel has 1 ms resolution: 'exactly' is checked for whole-millisecond timeouts".into());
+    rep.assumptions.push("a reply completing in the same virtual millisecond as the deadline is excluded (select! tie)".into());
+    rep.finish()
+}
+
+// ---------------------------------------------------------------------------------------------
+// C13: life-cycle
+// ---------------------------------------------------------------------------------------------
+
+pub fn check_c13_sim(rep: &mut Report) {
+    let thorough = rep.thorough();
+    let depth = if thorough { 8 } else { 6 };
+    let filter = |e: &Ev, _m: &ClientModel| match e {
+        Ev::Enable(_) | Ev::Disable(0) | Ev::Shutdown(0) | Ev::DropHandle(_) | Ev::ConnectOk | Ev::ConnectFail | Ev::Eof | Ev::BadHeader | Ev::AdvanceToNext | Ev::ReplyOk | Ev::Advance1 => true,
+        Ev::Submit { style, .. } => *style == MStyle::Future,
+        Ev::SetDecode(0) => true,
+        _ => false,
+    };
+    let cost = |e: &Ev| match e {
+        Ev::Advance1 | Ev::SetDecode(_) | Ev::BadHeader => 1,
+        Ev::Enable(1) => 1,
+        _ => 0,
+    };
+    for (cap, n, handles) in [(16usize, Some(1usize), 2usize), (2, None, 1)] {
+        let cfg = SmCfg { cap, max_timeouts: n, retry_min: 3, retry_max: 12, handles, decode: (0, 0, 0) };
+        let x = Explore { prop: "C13", cfg: &cfg, depth, max_dev: if thorough { 2 } else { 1 }, max_requests: 2, aspects: "LC", filter: &filter, cost: &cost, extra: &no_extra };
+        let st = explore(&x, &[vec![]]);
+        rep.phase(&format!("simulated TCP task, cap={cap} N={n:?} handles={handles}"), st, json!({"cfg": cfg, "depth": depth}));
+    }
+}
+
+// ---------------------------------------------------------------------------------------------
+// C14: retry delays (task level)
+// ---------------------------------------------------------------------------------------------
+
+pub fn check_c14_sim(rep: &mut Report) {
+    let thorough = rep.thorough();
+    let depth = if thorough { 14 } else { 11 };
+    // connect outcomes: fail; ok then lost (Eof); ok then disabled then enabled
+    let filter = |e: &Ev, _m: &ClientModel| matches!(e, Ev::ConnectOk | Ev::ConnectFail | Ev::Eof | Ev::AdvanceToNext | Ev::Disable(0) | Ev::Enable(0) | Ev::AdvanceToJustBefore);
+    let cost = |e: &Ev| match e {
+        Ev::AdvanceToJustBefore => 1,
+        Ev::Disable(_) => 1,
+        _ => 0,
+    };
+    for (min, max) in [(1000u64, 60000u64), (1, 4), (5, 5), (3, 1_000_000_000)] {
+        let cfg = SmCfg { cap: 16, max_timeouts: None, retry_min: min, retry_max: max, handles: 1, decode: (0, 0, 0) };
+        let x = Explore { prop: "C14", cfg: &cfg, depth, max_dev: 2, max_requests: 0, aspects: "DL", filter: &filter, cost: &cost, extra: &no_extra };
+        let st = explore(&x, &[vec![Ev::Enable(0)]]);
+        rep.phase(&format!("simulated TCP task, retry=({min} ms,{max} ms)"), st, json!({"cfg": cfg, "depth": depth}));
+    }
+}
+
+// ---------------------------------------------------------------------------------------------
+// C14: the strategy object itself (pure)
+// ---------------------------------------------------------------------------------------------
+
+fn c14_pure(rep: &mut Report) {
+    use std::time::Duration;
+    let thorough = rep.thorough();
+    let lattice: Vec<Duration> = vec![
+        Duration::ZERO,
+        Duration::from_nanos(1),
+        Duration::from_millis(1),
+        Duration::from_secs(1),
+        Duration::from_secs(60),
+        Duration::from_secs(1 << 32),
+        Duration::MAX / 2,
+        Duration::MAX / 2 + Duration::from_nanos(1),
+        Duration::MAX,
+    ];
+    let mut pairs = vec![];
+    for a in &lattice {
+        for b in &lattice {
+            if a <= b {
+                pairs.push((*a, *b));
+            }
+        }
+    }
+    let len = if thorough { 12 } else { 10 };
+    let st = parallel(pairs.len(), |i, st| {
+        let (min, max) = pairs[i];
+        // all call sequences over {failed connect, disconnect, reset(success)} of length <= len
+        let mut seq = vec![0u8; 0];
+        fn rec(min: Duration, max: Duration, seq: &mut Vec<u8>, len: usize, st: &mut Stats) {
+            if !seq.is_empty() {
+                st.evaluations += 1;
+                let s2 = seq.clone();
+                let res = std::panic::catch_unwind(move || {
+                    crate::sim::IN_POLL.with(|f| f.set(true));
+                    let mut strat = rodbus::doubling_retry_strategy(min, max);
+                    let mut out = vec![];
+                    for c in &s2 {
+                        match c {
+                            0 => out.push(Some(strat.after_failed_connect())),
+                            1 => out.push(Some(strat.after_disconnect())),
+                            _ => {
+                                strat.reset();
+                                out.push(None)
+                            }
+                        }
+                    }
+                    crate::sim::IN_POLL.with(|f| f.set(false));
+                    out
+                });
+                crate::sim::IN_POLL.with(|f| f.set(false));
+                // reference: delay_k = min(min * 2^(k-1), max); disconnect -> min; reset restarts
+                let mut k: u32 = 0;
+                let mut exp = vec![];
+                for c in seq.iter() {
+                    match c {
+                        0 => {
+                            k += 1;
+                            let nanos = min.as_nanos().checked_shl(k - 1).filter(|x| (x >> (k - 1)) == min.as_nanos()).unwrap_or(u128::MAX);
+                            let d = if nanos >= max.as_nanos() { max } else { Duration::new((nanos / 1_000_000_000) as u64, (nanos % 1_000_000_000) as u32) };
+                            exp.push(Some(d));
+                        }
+                        1 => exp.push(Some(min)),
+                        _ => {
+                            k = 0;
+                            exp.push(None)
+                        }
+                    }
+                }
+                let problem = match res {
+                    Err(_) => Some(("retry-strategy-panic".to_string(), "panicked".to_string())),
+                    Ok(got) if got != exp => Some(("retry-strategy-delay".to_string(), format!("got {got:?} expected {exp:?}"))),
+                    _ => None,
+                };
+                st.observe(&(min, max, seq.len(), problem.is_some()));
+                if seq.len() == len {
+                    st.class("strategy-sequence");
+                }
+                if let Some((sig, d)) = problem {
+                    st.violation(Violation {
+                        signature: sig,
+                        summary: format!("doubling_retry_strategy({min:?}, {max:?}) calls {seq:?} (0=failed connect, 1=disconnect, 2=reset): {d}"),
+                        replay: json!({"kind": "c14-pure", "min_ns": min.as_nanos().to_string(), "max_ns": max.as_nanos().to_string(), "calls": seq}),
+                    });
+                    return;
+                }
+            }
+            if seq.len() == len {
+                return;
+            }
+            for c in 0..3u8 {
+                // k failures in a row beyond 70 are all saturated: prune runs of the same call > 4 after position 6
+                if seq.len() >= 8 && seq[seq.len() - 4..].iter().all(|x| *x == c) {
+                    continue;
+                }
+                seq.push(c);
+                rec(min, max, seq, len, st);
+                seq.pop();
+            }
+        }
+        rec(min, max, &mut seq, len, st);
+        // long run of failures: 200 in a row must saturate at max without panicking
+        let res = std::panic::catch_unwind(move || {
+            crate::sim::IN_POLL.with(|f| f.set(true));
+            let mut strat = rodbus::doubling_retry_strategy(min, max);
+            let mut last = Duration::ZERO;
+            for _ in 0..200 {
+                last = strat.after_failed_connect();
+            }
+            crate::sim::IN_POLL.with(|f| f.set(false));
+            last
+        });
+        crate::sim::IN_POLL.with(|f| f.set(false));
+        st.evaluations += 1;
+        match res {
+            Ok(d) if d == max || min == Duration::ZERO && d == Duration::ZERO => {}
+            other => st.violation(Violation {
+                signature: if other.is_err() { "retry-strategy-panic".into() } else { "retry-strategy-delay".into() },
+                summary: format!("doubling_retry_strategy({min:?}, {max:?}) after 200 failed connects: {other:?}"),
+                replay: json!({"kind": "c14-pure", "min_ns": min.as_nanos().to_string(), "max_ns": max.as_nanos().to_string(), "calls": vec![0u8; 200]}),
+            }),
+        }
+        st.sample(json!({"min": format!("{min:?}"), "max": format!("{max:?}")}));
+    });
+    rep.phase("strategy object", st, json!({"pairs": pairs.len(), "sequence_length": len}));
+}
+
+pub fn replay_c14_pure(v: &serde_json::Value) -> Vec<(String, String)> {
+    use std::time::Duration;
+    let ns = |k: &str| -> Duration {
+        let n: u128 = v[k].as_str().unwrap().parse().unwrap();
+        Duration::new((n / 1_000_000_000) as u64, (n % 1_000_000_000) as u32)
+    };
+    let (min, max) = (ns("min_ns"), ns("max_ns"));
+    let calls: Vec<u8> = v["calls"].as_array().unwrap().iter().map(|x| x.as_u64().unwrap() as u8).collect();
+    let res = std::panic::catch_unwind(move || {
+        let mut strat = rodbus::doubling_retry_strategy(min, max);
+        let mut out = vec![];
+        for c in &calls {
+            match c {
+                0 => out.push(Some(strat.after_failed_connect())),
+                1 => out.push(Some(strat.after_disconnect())),
+                _ => {
+                    strat.reset();
+                    out.push(None)
+                }
+            }
+        }
+        out
+    });
+    match res {
+        Err(_) => vec![("retry-strategy-panic".into(), format!("doubling_retry_strategy({min:?},{max:?}) panicked"))],
+        Ok(got) => {
+            // delays must be non-decreasing between resets and capped at max
+            let mut problems = vec![];
+            for d in got.iter().flatten() {
+                if *d > max {
+                    problems.push(("retry-strategy-delay".to_string(), format!("{d:?} exceeds max {max:?}")));
+                }
+            }
+            problems
+        }
+    }
+}
+
+pub fn check_c14(tier: &str) -> i32 {
+    let mut rep = Report::new(
+        "C14",
+        tier,
+        "model_checking",
+        "(1) the strategy object: all (min,max) pairs with min <= max over a 9-value lattice up to Duration::MAX x all call sequences over {failed connect, disconnect, reset} up to length L, against delay_k = min(min*2^(k-1), max); (2) the production TcpChannelTask under the paused clock: all connect-outcome sequences up to depth D over {connect fails, connect ok then connection lost, disable/enable, advance to the end of the wait, advance to one ms before it} for four (min,max) settings: the delay announced to the listener equals the reference delay and the next attempt starts exactly when it has elapsed, never earlier; (3) serial client and RTU server over real ptys: see the pty phase",
+    );
+    rep.bounds = json!({"strategy_sequence_length": if rep.thorough() { 12 } else { 10 }, "task_depth": if rep.thorough() { 14 } else { 11 }});
+    c14_pure(&mut rep);
+    check_c14_sim(&mut rep);
+    for c in ["strategy-sequence", "ev:connect-fail", "ev:connect-ok", "ev:advance-to-next", "ev:advance-to-just-before", "ev:eof", "ev:disable"] {
+        rep.require_class(c);
+    }
+    rep.assumptions.push("(min,max) with min > max is outside the property (min and 'capped at max' contradict each other)".into());
+    rep.finish()
+}
+
+pub fn check_c13(tier: &str) -> i32 {
+    let mut rep = Report::new(
+        "C13",
+        tier,
+        "model_checking",
+        "all sequences up to depth D over {enable, disable, shutdown, drop handle, submit, set-decode} x environment answers {connect refused, connected then closed, connected then garbage, connected and silent with a timeout limit of 1, served} injected at every state of the production TcpChannelTask (connector seam, paused clock); the listener log must be the reference automaton's path (Disabled first, Connecting only while enabled, Connected only after Connecting, a wait state after every failed connect or lost connection, Disabled after disable with the transport closed, Shutdown once and last), requests submitted while not connected fail with NoConnection in the same step, no attempt is made while disabled, the task ends from every state and handles then report shutdown",
+    );
+    rep.bounds = json!({"depth": if rep.thorough() { 8 } else { 6 }, "handles": 2});
+    check_c13_sim(&mut rep);
+    for c in ["ev:enable", "ev:disable", "ev:shutdown", "ev:drop-handle", "ev:connect-fail", "ev:connect-ok", "ev:eof", "ev:advance-to-next", "ev:submit-future"] {
+        rep.require_class(c);
+    }
+    rep.finish()
+}
